@@ -538,7 +538,7 @@ class Frame:
         body = self.ev.prog.bodies.get(clos[1])
         if body is None:
             return None
-        key = ("clos", clos[1], site_hint, tuple(args))
+        key = ("clos", clos, site_hint, tuple(args))
         if key in self._children:
             return self._children[key]
         env = {1: clos}
